@@ -1826,7 +1826,8 @@ impl TypeLayout {
     }
 
     pub fn supports_index(&self) -> Option<SupportedTypesWrapper> {
-        let me = self.get_type_recursively();
+        // an alias of a list / str / map (`type H [int...]`) is indexed like the type it names
+        let me = self.disregard_distractors(false);
 
         Some(SupportedTypesWrapper(match me {
             Self::Native(NativeType::Str(_)) => Box::new([
